@@ -1,5 +1,6 @@
 #![allow(dead_code)]
 mod chooser;
+mod cross;
 mod cupsign;
 mod docgen;
 mod exec;
